@@ -119,7 +119,10 @@ def run_tlc(module: str, cfg: str | Path, work: Path, *, workers: int | str = "a
     # trace validation (workers == 1, small state spaces, many JVMs side by side) gets a small heap; model checking a big one.
     # A global semaphore file is not used: the number of concurrent JVMs is bounded by the callers (pmap / chunks).
     heap = os.environ.get("VERIF_TLC_HEAP") or ("1500m" if (workers == 1 and not simulate) else "6g")
-    cmd = ["java", "-XX:+UseSerialGC" if workers == 1 else "-XX:+UseParallelGC", f"-Xmx{heap}"]
+    # TLC unpacks the standard modules into java.io.tmpdir/tlc-<n> and leaves them there: keep that inside the work dir
+    jtmp = work / "jtmp"
+    jtmp.mkdir(parents=True, exist_ok=True)
+    cmd = ["java", "-XX:+UseSerialGC" if workers == 1 else "-XX:+UseParallelGC", f"-Xmx{heap}", f"-Djava.io.tmpdir={jtmp}"]
     if dfs:
         cmd.append("-Dtlc2.tool.queue.IStateQueue=StateDeque")
     cmd += ["-cp", _classpath(), "tlc2.TLC", "-config", str(cfg_path), "-metadir", str(meta),
